@@ -419,6 +419,27 @@ def generic_cells():
         yield ("generic:decl:" + name, GENERIC_SUPPORT + decl + "\nfunction main() -> void { }\n", ok)
 
 
+def final_field_position_cells():
+    """'final fields: exactly once per constructor, top level only' - the single assignment of a final field written in every position of a
+    constructor body that is NOT a top-level statement (bodies, nested blocks, and the headers of for/if/while); the twin assigns the field
+    at top level and puts an assignment to an ordinary field in the same position"""
+    # not demanded: an assignment expression evaluated once, unconditionally, inside a top-level statement ('int z = (this.f = 2);') is at
+    # the top level in every sense the rule can mean; assignment expressions as operands of comparisons are undocumented
+    positions = {k: v for k, v in EXPR_POSITIONS.items() if k in ("nested-block", "if-body", "else-body", "while-body", "for-body", "for-update-whole", "for-init")}
+    positions["for-init-whole"] = "for ({E}; ok < 1; ok = ok + 1) {{ }}"
+    positions["if-condition-via-call"] = "if (idf({E}) == 1) {{ ok = 2; }}"
+    positions["while-condition-via-call"] = "while (idf({E}) == 7) {{ ok = 2; }}"
+    positions["ternary-branch-statement"] = "ok == 1 ? {E}; : echo(2);"
+    for pos, tmpl in positions.items():
+        for how in ("this.", ""):
+            def ctor(body):
+                return SUPPORT + EXTRA_FUNCS + BOX + "class M { public final int f; public int g; public constructor() -> M { int ok = 1; int[3] arr; Priv po = new Priv(); " + body + " } }\nfunction main() -> void { M m = new M(); }\n"
+            bad = tmpl.format(E="(%sf = 2)" % how) if pos not in ("for-init-whole", "for-update-whole", "ternary-branch-statement") else tmpl.format(E="%sf = 2" % how)
+            good = "this.f = 1; " + (tmpl.format(E="(%sg = 2)" % how) if pos not in ("for-init-whole", "for-update-whole", "ternary-branch-statement") else tmpl.format(E="%sg = 2" % how))
+            yield ("finalpos:%s:%s" % (pos, how or "bare"), ctor(bad), False)
+            yield ("finalpos:%s:%s:twin" % (pos, how or "bare"), ctor(good), True)
+
+
 def _one(item):
     name, src, should_accept = item
     r = vdrv.run_job({"id": "a", "kind": "parse", "opts": {"analyse": 1}, "blobs": {"src": src}})
@@ -441,7 +462,7 @@ def _one(item):
 
 def main(tier):
     ck = vcheck.Check("C16", "exploration", tier)
-    cells = list(compat_cells()) + list(expr_cells(tier)) + list(stmt_cells(tier)) + list(decl_cells()) + list(generic_cells())
+    cells = list(compat_cells()) + list(expr_cells(tier)) + list(stmt_cells(tier)) + list(decl_cells()) + list(generic_cells()) + list(final_field_position_cells())
     n = 0
     outcomes = {}
     for name, src, prob, st in vdrv.pmap(_one, cells, chunksize=32):
